@@ -29,7 +29,57 @@ def c01_jobs(tier, seed):
             TraceJob(NOSSE, 'mul', shards=16, args=['--cases', 1500], timeout=3000)]
 
 
+def simple_jobs(family, qcases, qshards=12, tshards=32, nosse_frac=3, extra=None):
+    """quick: small-cache build (thresholds reachable) + a no-SSE2/thread-safe/mid-cache build on a fraction;
+    thorough: family defaults in small, host and nosse builds"""
+    ex = extra or []
+
+    def f(tier, seed):
+        if tier == 'quick':
+            return [TraceJob(SMALL, family, shards=qshards, args=['--cases', qcases] + ex),
+                    TraceJob(NOSSE, family, shards=max(2, qshards // nosse_frac), args=['--cases', max(40, qcases // nosse_frac)] + ex)]
+        return [TraceJob(SMALL, family, shards=tshards, timeout=3400, args=ex), TraceJob(HOST, family, shards=tshards // 2, timeout=3400, args=ex),
+                TraceJob(NOSSE, family, shards=tshards // 2, timeout=3400, args=ex)]
+    return f
+
+
+GEN_ASSUME = ['TLC evaluates GF2.tla operators correctly (checked against declarative twins by MC_GF2)',
+              'the harness logs the raw memory of operands truthfully (memcmp snapshots)',
+              'contents at 64-bit word size are sampled (structured families + seeded random), not exhaustive']
+
+
+def alg(jobs, reasons=ALG_REASONS):
+    return dict(level='model_checking', reasons=reasons, jobs=jobs, mc=lambda tier: [], assumptions=GEN_ASSUME)
+
+
+ALL_FAMS = [('mul', 480), ('move', 800), ('rowops', 640), ('obs', 640), ('elim', 320), ('ple', 240), ('trsm', 240), ('inv', 160), ('solve', 240), ('kernel', 160)]
+
+
+def views_jobs(tier, seed):
+    """C09: every family with every matrix operand created as a window at a random placement inside a
+    larger junk-filled parent (row offset, odd/even word offset, parent wider or not, rows below)"""
+    jobs = []
+    for fam, n in ALL_FAMS:
+        if tier == 'quick':
+            jobs.append(TraceJob(SMALL, fam, shards=2 if n < 400 else 3, args=['--cases', n, '--extra', 'views,nobig'], label=fam + '-views@' + SMALL))
+        else:
+            jobs.append(TraceJob(SMALL, fam, shards=8, args=['--cases', n * 6, '--extra', 'views,nobig'], label=fam + '-views@' + SMALL, timeout=3400))
+            jobs.append(TraceJob(NOSSE, fam, shards=4, args=['--cases', n * 2, '--extra', 'views,nobig'], label=fam + '-views@' + NOSSE, timeout=3400))
+    return jobs
+
+
 PROPS = {
+    'C09': dict(level='model_checking', reasons=ALG_REASONS | {'padding'}, jobs=views_jobs, mc=lambda tier: [], assumptions=GEN_ASSUME + [
+        'window placements are sampled from the classes row offset {0,1,5} x word offset {0,1,2,3} x parent wider by {0,1,17,64,65,130} columns x rows below or not']),
+    'C02': alg(simple_jobs('elim', 640)),
+    'C03': alg(simple_jobs('ple', 480, qshards=12)),
+    'C04': alg(simple_jobs('trsm', 480)),
+    'C05': alg(simple_jobs('inv', 320)),
+    'C06': alg(simple_jobs('solve', 480)),
+    'C07': alg(simple_jobs('kernel', 320)),
+    'C08': alg(simple_jobs('move', 1600)),
+    'C13': alg(simple_jobs('rowops', 1200)),
+    'C17': alg(simple_jobs('obs', 1600)),
     'C01': dict(level='model_checking', reasons=ALG_REASONS, jobs=c01_jobs, mc=lambda tier: [],
                 assumptions=['TLC evaluates GF2.tla operators correctly (checked against declarative twins by MC_GF2)',
                              'the harness logs the raw memory of operands truthfully (memcmp snapshots)',
@@ -113,6 +163,7 @@ def run_property(prop, tier, seed):
     perop = {}
     samples = []
     other = {}
+    classes = {}
     for (job, shard), tr, r in zip(pairs, traces, results):
         states += r['states']
         trans += r['states']
@@ -159,8 +210,11 @@ def run_property(prop, tier, seed):
                     res['known'].append(msg)
                 continue
             keep = True
-            path = vlib.make_replay(lines, ln, rundir, prop, job, seed, tier, rel)
-            if len(res['violations']) < 25:
+            ck = '%s [%s] %s' % (sig['op'], ','.join(rel), job.label)
+            classes[ck] = classes.get(ck, 0) + 1
+            # one replay file per (operation, reasons, job) class, at most 40 in total
+            if classes[ck] <= 2 and len(res['violations']) < 40:
+                path = vlib.make_replay(lines, ln, rundir, prop, job, seed, tier, rel)
                 res['violations'].append({'replay': path, 'detail': desc})
         if not keep and not os.environ.get('VERIF_KEEP'):
             for suffix in ('', '.tlc.log', '.driver.log'):
@@ -168,6 +222,8 @@ def run_property(prop, tier, seed):
                     os.remove(tr + suffix)
                 except OSError:
                     pass
+    for ck in sorted(classes):
+        log('[rejected] %4d x %s' % (classes[ck], ck))
     if other:
         log('[note] rejections for reasons judged by other properties (not counted here): %s' % other)
     if not samples and sigs:
